@@ -59,13 +59,18 @@ func TestC03(t *testing.T) {
 		{"compete", imps.Profile{MaxPaths: 10, Compete: true, Std: true, Anon: true}, 1},
 		{"local", imps.Profile{MaxPaths: 6, LocalCtor: true, Dots: 3, Std: true, Anon: true}, 1},
 		{"arbitrary", imps.Profile{MaxPaths: 8, ArbPaths: true, ReservedMix: true, Compete: true}, 1},
+		{"many", imps.Profile{MaxPaths: 90, ArbPaths: true, Compete: true, Std: true, Anon: true, Dots: 2}, 0},
 	}
 	for _, p := range profiles {
 		c := ck
 		c.Name = "resolution/" + p.name
 		c.Name = "resolution_" + p.name
 		g := imps.Gen(p.pr)
-		hx.Rapid(r, t, c, r.N(500, 5000)*p.w, func(rt *rapid.T) imps.Scenario {
+		n := r.N(500, 5000) * p.w
+		if p.w == 0 {
+			n = r.N(60, 400) // large import sets: fewer, bigger cases
+		}
+		hx.Rapid(r, t, c, n, func(rt *rapid.T) imps.Scenario {
 			sc := g(rt)
 			classify(r, sc)
 			return sc
